@@ -40,7 +40,6 @@ def exclTags (ps : PState) (toks : List String) : List String × Bool :=
       ((if mat && Excl_transposeShared (otherLive ps id) t then ["F39"] else []) ++
        (if mat && Excl_transposeView t then ["F5"] else []) ++
        (if mat && Excl_transposeCol t then ["F6"] else []) ++
-       (if mat && Excl_reshapeLongWindow t then ["F16"] else []) ++
        (if Excl_shortStrides t then ["F24"] else []), mat)
     | _, _ => ([], false)
   | ["safeT", v, axes] =>
@@ -53,16 +52,12 @@ def exclTags (ps : PState) (toks : List String) : List String × Bool :=
     | some (_, t), some _ =>
       let moves := !isVector t.ap.shape && !isScalar t.ap.shape
       ((if t.ap.o.col && moves then ["F6"] else []) ++
-       (if Excl_shortStrides t then ["F24"] else []) ++
-       (if (t.win.len : Int) != totalSize t.ap.shape then ["F16"] else []) ++
-       (if t.old.isSome && !isVector t.ap.shape && !isScalar t.ap.shape then ["F120"] else []), false)
+       (if Excl_shortStrides t then ["F24"] else []), false)
     | _, _ => ([], false)
   | ["transpose", v] =>
     match ps.obj v with
     | some (id, t) =>
       ((if Excl_transposeView t then ["F5"] else []) ++ (if Excl_transposeCol t then ["F6"] else []) ++
-       (if Excl_reshapeLongWindow t && t.old.isSome then ["F16"] else []) ++
-       (if Excl_transposeFromPermuted t then ["F120"] else []) ++
        (if Excl_transposeShared (otherLive ps id) t then ["F39"] else []), true)
     | _ => ([], false)
   | ["iter", v, _] =>
@@ -101,7 +96,7 @@ def exclTags (ps : PState) (toks : List String) : List String × Bool :=
     let tens := (match oa with | some (_, d) => [d] | none => []) ++ (match ob with | some (_, d) => [d] | none => [])
     let incrD := (opts.find? (·.startsWith "incr=")).bind (fun t => (ps.obj (t.drop 5).toString).map (·.2))
     let f35 := tens.any (fun t => Excl_reuseOrderFlip t reuse || Excl_reuseOrderFlip t incrD)
-    -- F16/F44 root cause: a destination that is a clone of a non-contiguous view (window longer than its size) is
+    -- F16 (what remains of it): a destination that is a clone of a non-contiguous view (window longer than its size) is
     -- refused by handleFuncOpts (`reuse.len() != expShape.TotalSize()`)
     let f16 := (match reuse with | some r => Excl_reshapeLongWindow r | none => false) ||
       (match incrD with | some r => Excl_reshapeLongWindow r | none => false)
@@ -131,8 +126,6 @@ def exclTags (ps : PState) (toks : List String) : List String × Bool :=
     match ps.obj v with
     | some (id, t) =>
       ((if Excl_transposeShared (otherLive ps id) t then ["F39"] else []) ++
-       (if Excl_reshapeLongWindow t then ["F16"] else []) ++
-       (if Excl_reshapeStrides t then ["F97"] else []) ++
        (if Excl_transposeView t then ["F5"] else []) ++ (if Excl_transposeCol t then ["F6"] else []) ++
        (if Excl_shortStrides t then ["F24"] else []), true)
     | _ => ([], false)
